@@ -645,6 +645,34 @@ def _mutable_value(v):
     return isinstance(v, ast.Call) and (chain(v.func) or ['?'])[-1] in MUTABLE_MAKERS
 
 
+def _shared_memo_over_bitsets(model, R, func, node, cur, deco):
+    """``lru_cache``/``cache`` on a function that is not bound to one object (classmethod, staticmethod, module function) keeps
+    ONE table for the whole process, keyed by the arguments' ``==``/``hash``.  A raw bit set (``x._extent`` / ``x._intent``)
+    is an ``int`` subclass that inherits both from ``int`` (axiom about bitsets 0.8.4): the sets of two different contexts
+    with the same bit pattern are the same key.  Decided when a call site on the current tree passes such a field as an
+    argument and no argument identifies the context; returns False (not judged) otherwise."""
+    if func.cls is not None and not ({'classmethod', 'staticmethod'} & set(cur['deco'])):
+        return False
+    sites = []
+    for g in model.all_funcs():
+        gnode = g.node
+        for c in ast.walk(gnode):
+            if isinstance(c, ast.Call) and isinstance(c.func, (ast.Attribute, ast.Name)) and (chain(c.func) or ['?'])[-1] == func.name:
+                raw = [a for a in c.args if isinstance(a, ast.Attribute) and a.attr in ('_extent', '_intent')]
+                ctx = [a for a in c.args if chain(a) and chain(a)[-1] in ('_context', 'context', 'lattice', 'self')]
+                if raw and not ctx:
+                    sites.append((g, c, raw))
+    if not sites:
+        return False
+    g, c, raw = sites[0]
+    R.bad('NEW-CACHE', func, node, f'{func.name}: one result per context',
+          'no process-wide memo keyed by raw bit sets (they compare and hash as plain ints, whatever context they belong to)',
+          f'@{deco} added; called with {", ".join(src(a) for a in raw)} at {g.key}:{c.lineno}',
+          extra={'consequence': 'a second context whose concept has the same bit patterns gets the value computed for the first one '
+                                '(a member of the other context\'s classes, with the other context\'s labels)'})
+    return True
+
+
 def shape_changes(model, R, scope):
     """Against the frozen table of today's function shapes (pinned_shape.json):
     KIND-CHANGE   a public function became a generator function or stopped being one - its body (argument checks, the
@@ -719,6 +747,8 @@ def shape_changes(model, R, scope):
                 R.bad('NEW-CACHE', func, node, f'{func.name}: every call returns its own container', 'a fresh list/dict per call (or an immutable value)',
                       f'{what}: the cached container itself is handed to every caller',
                       extra={'consequence': 'a caller that edits the returned container changes what every later call (and the object itself) reports'})
+            elif added and added[0] in ('lru_cache', 'cache') and _shared_memo_over_bitsets(model, R, func, node, cur, added[0]):
+                pass
             elif pinned is None or added:
                 R.unknown('NEW-CACHE', func, node, f'{func.name}: memoisation', f'{what}: whether the value can go stale or be edited is not judged')
         if pinned is not None and cur['raises'] > pinned['raises']:
